@@ -12,6 +12,7 @@ package main
 import (
 	"bufio"
 	"context"
+	"crypto/tls"
 	"encoding/json"
 	"flag"
 	"fmt"
@@ -34,14 +35,15 @@ import (
 )
 
 type connPlan struct {
-	Phase  string `json:"phase"`  // fresh parthead upstream writeblocked keepalive tunnel tundial pphdr
-	After  string `json:"after"`  // send release gone stay hdr
+	Phase  string `json:"phase"`  // fresh parthead upstream writeblocked keepalive tunnel tundial pphdr tlshello
+	After  string `json:"after"`  // send release gone stay hdr hs
 	Vanish bool   `json:"vanish"` // the client closes its socket at its phase, before shutdown begins
 }
 
 type scenario struct {
 	Name          string     `json:"name"`
 	PP            bool       `json:"pp"`
+	TLS           bool       `json:"tls"`
 	Conns         []connPlan `json:"conns"`
 	Mode          string     `json:"mode"` // shutdown | expire-close | close
 	Late          int        `json:"late"` // connections dialled after closing has been observed
@@ -107,9 +109,23 @@ func startEnv() *env {
 
 type cli struct {
 	id   int
-	c    net.Conn
+	raw  net.Conn
+	c    net.Conn // raw, or the TLS client connection on top of it
 	br   *bufio.Reader
 	gone bool
+}
+
+// handshake runs the client side of the listener TLS handshake.
+func (c *cli) handshake() error {
+	tc := tls.Client(c.raw, &tls.Config{InsecureSkipVerify: true}) //nolint:gosec
+	tc.SetDeadline(time.Now().Add(2 * time.Second))
+	if err := tc.Handshake(); err != nil {
+		return err
+	}
+	tc.SetDeadline(time.Time{})
+	c.c = tc
+	c.br = bufio.NewReader(tc)
+	return nil
 }
 
 type runner struct {
@@ -247,6 +263,14 @@ func runScenario(sc scenario, e *env) (res result) {
 		inner = &proxyproto.Listener{Listener: tcp, ReadHeaderTimeout: 5 * time.Second}
 	}
 	gl := &gaterig.Listener{Listener: inner, Rig: rig}
+	if sc.TLS {
+		tcfg, err := gaterig.SelfSigned()
+		if err != nil {
+			res.Err = err.Error()
+			return
+		}
+		gl.TLS = tcfg
+	}
 	srvDone := make(chan struct{})
 	go func() {
 		hp.VerifC11Serve(gl) //nolint:errcheck
@@ -265,7 +289,7 @@ func runScenario(sc scenario, e *env) (res result) {
 		if err != nil {
 			return nil
 		}
-		c := &cli{id: -1, c: conn, br: bufio.NewReader(conn)}
+		c := &cli{id: -1, raw: conn, c: conn, br: bufio.NewReader(conn)}
 		if sendPP {
 			conn.Write([]byte(ppHdr)) //nolint:errcheck
 		}
@@ -284,8 +308,15 @@ func runScenario(sc scenario, e *env) (res result) {
 		}
 		r.clis = append(r.clis, c)
 		r.waitEv("Addr", i, 1)
+		if sc.TLS && p.Phase != "tlshello" {
+			if err := c.handshake(); err != nil {
+				res.Err = fmt.Sprintf("connection %d: TLS handshake: %v", i, err)
+				return
+			}
+			rig.HandshakeDone(i)
+		}
 		switch p.Phase {
-		case "fresh", "pphdr":
+		case "fresh", "pphdr", "tlshello":
 		case "parthead":
 			t := r.reqText(i, false)
 			c.c.Write([]byte(t[:len(t)-2])) //nolint:errcheck
@@ -407,6 +438,16 @@ func runScenario(sc scenario, e *env) (res result) {
 		case "hdr":
 			c.c.Write([]byte(ppHdr)) //nolint:errcheck
 			r.expectEOF(c)
+		case "hs":
+			// the handshake that was pending when closing was set completes now; a request follows
+			if err := c.handshake(); err != nil {
+				r.obs(cliObs{Conn: i, What: "handshake failed: " + err.Error()})
+				r.rig.Log.Add(gaterig.Ev{K: "CliEOF", Conn: i})
+			} else {
+				rig.HandshakeDone(i)
+				c.c.Write([]byte(r.reqText(i, false))) //nolint:errcheck
+				r.expectResponseOrEOF(c, false)
+			}
 		case "release":
 			switch p.Phase {
 			case "upstream":
@@ -469,6 +510,14 @@ func runScenario(sc scenario, e *env) (res result) {
 	}
 	for _, c := range late {
 		if c.id >= 0 {
+			if sc.TLS {
+				if err := c.handshake(); err != nil {
+					r.obs(cliObs{Conn: c.id, What: "late handshake failed: " + err.Error()})
+					r.rig.Log.Add(gaterig.Ev{K: "CliEOF", Conn: c.id})
+					continue
+				}
+				rig.HandshakeDone(c.id)
+			}
 			c.c.Write([]byte(r.reqText(c.id, false))) //nolint:errcheck
 			r.expectResponseOrEOF(c, false)
 		}
@@ -554,6 +603,8 @@ func aftersOf(phase string) []string {
 		return []string{"gone", "stay"}
 	case "pphdr":
 		return []string{"hdr", "gone", "stay"}
+	case "tlshello":
+		return []string{"hs", "gone", "stay"}
 	}
 	return []string{"stay"}
 }
@@ -569,10 +620,14 @@ func identity(n int) []int {
 func genScenarios(tier string, r *rng.R) []scenario {
 	var out []scenario
 	// every phase x every continuation x every way the call ends, one connection
-	for _, pp := range []bool{false, true} {
+	for _, stackN := range []int{0, 1, 2} {
+		pp, tl := stackN == 1, stackN == 2
 		ph := phases
 		if pp {
 			ph = []string{"pphdr", "fresh", "upstream"}
+		}
+		if tl {
+			ph = []string{"tlshello", "fresh", "upstream", "writeblocked", "keepalive"}
 		}
 		for _, p := range ph {
 			for _, a := range aftersOf(p) {
@@ -581,14 +636,14 @@ func genScenarios(tier string, r *rng.R) []scenario {
 						continue // would wait for ever
 					}
 					for _, van := range []bool{false, true} {
-						if van && (a == "send" || a == "hdr") {
+						if van && (a == "send" || a == "hdr" || a == "hs") {
 							continue
 						}
-						if van && pp {
+						if van && (pp || tl) {
 							continue
 						}
 						out = append(out, scenario{
-							Name: fmt.Sprintf("one/%v/%s/%s/%s/v%v", pp, p, a, mode, van), PP: pp,
+							Name: fmt.Sprintf("one/%d/%s/%s/%s/v%v", stackN, p, a, mode, van), PP: pp, TLS: tl,
 							Conns: []connPlan{{Phase: p, After: a, Vanish: van}}, Mode: mode, Order: []int{0},
 							CloseListener: mode != "close" && a != "stay",
 						})
@@ -613,17 +668,21 @@ func genScenarios(tier string, r *rng.R) []scenario {
 	}
 	for k := 0; k < n; k++ {
 		pp := r.Chance(1, 5)
+		tl := !pp && r.Chance(1, 5)
 		nc := 2 + r.Intn(4)
-		sc := scenario{Name: fmt.Sprintf("mix/%d", k), PP: pp}
+		sc := scenario{Name: fmt.Sprintf("mix/%d", k), PP: pp, TLS: tl}
 		stay := false
 		for i := 0; i < nc; i++ {
 			ph := phases[r.Intn(len(phases))]
 			if pp && r.Chance(1, 3) {
 				ph = "pphdr"
 			}
+			if tl {
+				ph = []string{"tlshello", "fresh", "upstream", "writeblocked", "keepalive", "parthead"}[r.Intn(6)]
+			}
 			as := aftersOf(ph)
 			a := as[r.Intn(len(as))]
-			van := r.Chance(1, 6) && a != "send" && a != "hdr" && ph != "pphdr"
+			van := r.Chance(1, 6) && a != "send" && a != "hdr" && a != "hs" && ph != "pphdr" && ph != "tlshello"
 			gated := ph == "upstream" || ph == "writeblocked" || ph == "tundial"
 			if a == "stay" && (!van || gated) {
 				stay = true // this connection keeps Shutdown waiting (a held step stays held even if the client left)
@@ -662,7 +721,7 @@ func coqBool(b bool) string {
 // coqLabel renders one event as a label of Shutdown.v ("" = not a label of the LTS).
 func coqLabel(e gaterig.Ev) string {
 	switch e.K {
-	case "Acc", "Addr", "FirstByte", "Fwd", "RTLeave", "WrCall", "SockClose", "SockCloseC", "ClientGone":
+	case "Acc", "TlsConn", "HsDone", "Addr", "FirstByte", "Fwd", "RTLeave", "WrCall", "SockClose", "SockCloseC", "ClientGone":
 		return fmt.Sprintf("%s %d", e.K, e.Conn)
 	case "ReqRead":
 		k := map[string]string{"err": "RErr", "ok": "ROk", "connect": "RConnect"}[e.S]
